@@ -1,15 +1,29 @@
 /-
-  C09-5: what the ideal engine accepts, every engine without `nullableUnionPanic` accepts, with the
-  same node.  (So a quirk flag only ever changes the outcome of an input the ideal engine REJECTS.)
+  C09-5: what the ideal engine accepts, every engine without `nullableUnionPanic` (and without the three
+  generated-code flags that refuse or break accepted input: `prefixEmptyDelimSplit`, `kindedNullRejected`,
+  `assignNodeSkipsBegin` under `viaNode`) accepts, with the same node.  (So every other quirk flag only
+  ever changes the outcome of an input the ideal engine REJECTS.)
 -/
 import IpldModel.Lemmas.SchemaBasic
 namespace Ipld
 namespace Schema
 
+/-- An engine without the flags that can change the outcome of an input the ideal engine ACCEPTS:
+    `nullableUnionPanic` (reflection binding), `prefixEmptyDelimSplit`, `kindedNullRejected` and
+    `assignNodeSkipsBegin` where it can act, i.e. under the driving mode `viaNode` (generated code).
+    The other twelve flags, and the driving mode `viaKeys`, are free. -/
+structure Engine.MonoFlags (e : Engine) : Prop where
+  nup : e.nullableUnionPanic = false
+  split : e.prefixEmptyDelimSplit = false
+  knull : e.kindedNullRejected = false
+  node : (e.viaNode && e.assignNodeSkipsBegin) = false
+
+theorem Engine.ideal_monoFlags : Engine.ideal.MonoFlags := ⟨rfl, rfl, rfl, rfl⟩
+
 /-! ## Scalars -/
 
 mutual
-theorem buildScalar_mono (e : Engine) (hn : e.nullableUnionPanic = false) (lvl : Level) (nul : Bool)
+theorem buildScalar_mono (e : Engine) (hn : e.MonoFlags) (lvl : Level) (nul : Bool)
     (d : DM) : (ty : Ty) → (v : TL) → buildScalar Engine.ideal lvl nul d ty = .ok v →
     buildScalar e lvl nul d ty = .ok v
   | .bool, v, h => by simpa [buildScalar] using h
@@ -54,7 +68,9 @@ theorem buildScalar_mono (e : Engine) (hn : e.nullableUnionPanic = false) (lvl :
       | stringprefix delim =>
         cases d with
         | str s =>
-          simp only [buildScalar] at h ⊢
+          rw [buildScalar_union_ideal] at h
+          rw [buildScalar_union_off e hn.split]
+          simp only [] at h ⊢
           by_cases hd : delim.isEmpty = true
           · simp only [hd, if_true] at h ⊢; exact buildPrefixNoDelim_mono e hn nul s ms v h
           · simp only [hd] at h ⊢
@@ -90,7 +106,7 @@ theorem buildScalar_mono (e : Engine) (hn : e.nullableUnionPanic = false) (lvl :
         | int => simpa [buildScalar] using h
         | str => simp [buildScalar] at h
       | _ => simp [buildScalar] at h
-theorem buildJoin_mono (e : Engine) (hn : e.nullableUnionPanic = false) : (fs : Fields) →
+theorem buildJoin_mono (e : Engine) (hn : e.MonoFlags) : (fs : Fields) →
     (ps : List Bytes) → (es : List (Bytes × TL)) → buildJoin Engine.ideal fs ps = .ok es →
     buildJoin e fs ps = .ok es
   | .nil, [], es, h => by simpa [buildJoin] using h
@@ -110,7 +126,7 @@ theorem buildJoin_mono (e : Engine) (hn : e.nullableUnionPanic = false) : (fs : 
       · cases h
     · cases h
     · cases h
-theorem buildKinded_mono (e : Engine) (hn : e.nullableUnionPanic = false) (nul : Bool) (d : DM) :
+theorem buildKinded_mono (e : Engine) (hn : e.MonoFlags) (nul : Bool) (d : DM) :
     (ms : Members) → (v : TL) → buildKinded Engine.ideal nul d ms = .ok v → buildKinded e nul d ms = .ok v
   | .nil, v, h => by simp [buildKinded] at h
   | .cons n _ k t rest, v, h => by
@@ -120,12 +136,12 @@ theorem buildKinded_mono (e : Engine) (hn : e.nullableUnionPanic = false) (nul :
       simp only [hk, if_true, ideal_nullableUnionPanic, Bool.and_false, Bool.false_eq_true, if_false,
         Outcome.map_eq_ok] at h
       obtain ⟨tv, htv, rfl⟩ := h
-      simp only [hn, Bool.and_false, Bool.false_eq_true, if_false,
+      simp only [hn.nup, Bool.and_false, Bool.false_eq_true, if_false,
         buildScalar_mono e hn .repr false d t tv htv, Outcome.map_ok]
     · next hk =>
       simp only [hk] at h
       exact buildKinded_mono e hn nul d rest v h
-theorem buildPrefix_mono (e : Engine) (hn : e.nullableUnionPanic = false) (nul : Bool) (p r : Bytes) :
+theorem buildPrefix_mono (e : Engine) (hn : e.MonoFlags) (nul : Bool) (p r : Bytes) :
     (ms : Members) → (v : TL) → buildPrefix Engine.ideal nul p r ms = .ok v →
     buildPrefix e nul p r ms = .ok v
   | .nil, v, h => by simp [buildPrefix] at h
@@ -136,12 +152,12 @@ theorem buildPrefix_mono (e : Engine) (hn : e.nullableUnionPanic = false) (nul :
       simp only [hk, if_true, ideal_nullableUnionPanic, Bool.and_false, Bool.false_eq_true, if_false,
         Outcome.map_eq_ok] at h
       obtain ⟨tv, htv, rfl⟩ := h
-      simp only [hn, Bool.and_false, Bool.false_eq_true, if_false,
+      simp only [hn.nup, Bool.and_false, Bool.false_eq_true, if_false,
         buildScalar_mono e hn .repr false _ t tv htv, Outcome.map_ok]
     · next hk =>
       simp only [hk] at h
       exact buildPrefix_mono e hn nul p r rest v h
-theorem buildPrefixNoDelim_mono (e : Engine) (hn : e.nullableUnionPanic = false) (nul : Bool) (s : Bytes) :
+theorem buildPrefixNoDelim_mono (e : Engine) (hn : e.MonoFlags) (nul : Bool) (s : Bytes) :
     (ms : Members) → (v : TL) → buildPrefixNoDelim Engine.ideal nul s ms = .ok v →
     buildPrefixNoDelim e nul s ms = .ok v
   | .nil, v, h => by simp [buildPrefixNoDelim] at h
@@ -152,7 +168,7 @@ theorem buildPrefixNoDelim_mono (e : Engine) (hn : e.nullableUnionPanic = false)
       simp only [hk, if_true, ideal_nullableUnionPanic, Bool.and_false, Bool.false_eq_true, if_false,
         Outcome.map_eq_ok] at h
       obtain ⟨tv, htv, rfl⟩ := h
-      simp only [hn, Bool.and_false, Bool.false_eq_true, if_false,
+      simp only [hn.nup, Bool.and_false, Bool.false_eq_true, if_false,
         buildScalar_mono e hn .repr false _ t tv htv, Outcome.map_ok]
     · next hk =>
       simp only [hk] at h
@@ -244,6 +260,43 @@ theorem SSt.curOf_cleanFrom (e : Engine) (st : SSt) (i : Nat) (f : Field) (h : s
   · exact h i (Nat.le_refl i)
   · rfl
 
+/-- `tupleShortAccepted` changes nothing where the ideal `Finish` succeeds: in a clean assembly whose
+    required fields were all assigned, no field is left to its zero value. -/
+theorem finishFieldsZero_of_finishFields : (fs : List Field) → (ss : List (Option TL)) → (ds : List Bool) →
+    (r : List (Bytes × TL)) → (∀ i, ds.getD i false = false → ss.getD i none = none) →
+    finishFields fs ss ds = some r → finishFieldsZero fs ss ds = r
+  | [], [], [], r, _, h => by simp only [finishFields, Option.some.injEq] at h; subst h; rfl
+  | [], [], _ :: _, _, _, h => by simp [finishFields] at h
+  | [], _ :: _, _, _, _, h => by simp [finishFields] at h
+  | _ :: _, [], _, _, _, h => by simp [finishFields] at h
+  | _ :: _, _ :: _, [], _, _, h => by simp [finishFields] at h
+  | f :: fs, s :: ss, d :: ds, r, hcl, h => by
+    have h0 := hcl 0
+    have ht : ∀ i, ds.getD i false = false → ss.getD i none = none := fun i hi => by
+      have := hcl (i + 1)
+      simpa using this (by simpa using hi)
+    simp only [List.getD_cons_zero] at h0
+    simp only [finishFields] at h
+    split at h
+    · cases h
+    · next hreq =>
+      cases hq : finishFields fs ss ds with
+      | none => cases s <;> simp [hq] at h
+      | some r' =>
+        have ih := finishFieldsZero_of_finishFields fs ss ds r' ht hq
+        simp only [finishFieldsZero, ih]
+        cases d <;> cases s <;> cases ho : f.opt <;> simp_all
+
+theorem SSt.finishZero_of_finish (fs : List Field) (st : SSt) (v : TL) (hc : st.clean)
+    (h : st.finish fs = .ok v) : st.finishZero fs = .ok v := by
+  unfold SSt.finish at h
+  unfold SSt.finishZero
+  split at h
+  · next es hes =>
+    rw [finishFieldsZero_of_finishFields fs st.slots st.done es (fun i hi => hc.2 i hi) hes]
+    exact h
+  · cases h
+
 theorem fieldByKey_mono (e : Engine) (lvl : Level) (fs : List Field) (k : Bytes) (r : Nat × Field)
     (h : fieldByKey Engine.ideal lvl fs k = some r) : fieldByKey e lvl fs k = some r := by
   cases lvl
@@ -306,7 +359,8 @@ theorem build_list_eq (e : Engine) (lvl : Level) (ty : Ty) (nul : Bool) (cur : O
         (listBody e lvl ty' (if path.isEmpty then cur else none) xs).map (wrapPath path) := by
   unfold build; rfl
 
-theorem build_map_eq (e : Engine) (lvl : Level) (ty : Ty) (nul : Bool) (cur : Option TL) (es : DMKVs) :
+theorem build_map_eq (e : Engine) (hoff : (e.viaNode && e.assignNodeSkipsBegin) = false) (lvl : Level)
+    (ty : Ty) (nul : Bool) (cur : Option TL) (es : DMKVs) :
     build e lvl ty nul cur (.map es) =
       match (match lvl with
              | .repr => resolveKinded e nul .map ty
@@ -315,7 +369,7 @@ theorem build_map_eq (e : Engine) (lvl : Level) (ty : Ty) (nul : Bool) (cur : Op
       | .panic => .panic
       | .ok (ty', path) =>
         (mapBody e lvl ty' (if path.isEmpty then cur else none) es).map (wrapPath path) := by
-  unfold build; rfl
+  rw [build_map_off e hoff]; rfl
 
 theorem build_type_list (e : Engine) (ty : Ty) (nul : Bool) (xs : DMs) :
     build e .type ty nul none (.list xs) = listBody e .type ty none xs := by
@@ -323,9 +377,10 @@ theorem build_type_list (e : Engine) (ty : Ty) (nul : Bool) (xs : DMs) :
   simp only [List.isEmpty_nil, if_true]
   cases listBody e .type ty none xs <;> rfl
 
-theorem build_type_map (e : Engine) (ty : Ty) (nul : Bool) (es : DMKVs) :
+theorem build_type_map (e : Engine) (hoff : (e.viaNode && e.assignNodeSkipsBegin) = false) (ty : Ty)
+    (nul : Bool) (es : DMKVs) :
     build e .type ty nul none (.map es) = mapBody e .type ty none es := by
-  rw [build_map_eq]
+  rw [build_map_eq e hoff]
   simp only [List.isEmpty_nil, if_true]
   cases mapBody e .type ty none es <;> rfl
 
@@ -338,22 +393,26 @@ theorem build_repr_list (e : Engine) (ty : Ty) (nul : Bool) (xs : DMs) :
   rw [build_list_eq]
   simp only [ite_self]
 
-theorem build_repr_map (e : Engine) (ty : Ty) (nul : Bool) (es : DMKVs) :
+theorem build_repr_map (e : Engine) (hoff : (e.viaNode && e.assignNodeSkipsBegin) = false) (ty : Ty)
+    (nul : Bool) (es : DMKVs) :
     build e .repr ty nul none (.map es) =
       match resolveKinded e nul .map ty with
       | .reject => .reject
       | .panic => .panic
       | .ok (ty', path) => (mapBody e .repr ty' none es).map (wrapPath path) := by
-  rw [build_map_eq]
+  rw [build_map_eq e hoff]
   simp only [ite_self]
 
 /-! ## The builders -/
 
 mutual
-theorem build_mono (e : Engine) (hn : e.nullableUnionPanic = false) (lvl : Level) : (d : DM) →
+theorem build_mono (e : Engine) (hn : e.MonoFlags) (lvl : Level) : (d : DM) →
     (ty : Ty) → (nul : Bool) → (v : TL) → build Engine.ideal lvl ty nul none d = .ok v →
     build e lvl ty nul none d = .ok v
-  | .null, ty, nul, v, h => by unfold build at h ⊢; exact h
+  | .null, ty, nul, v, h => by
+    rw [build_null_ideal] at h
+    rw [build_null_off e hn.knull]
+    exact h
   | .bool b, ty, nul, v, h => by unfold build at h ⊢; exact buildScalar_mono e hn lvl nul _ ty v h
   | .int b, ty, nul, v, h => by unfold build at h ⊢; exact buildScalar_mono e hn lvl nul _ ty v h
   | .float b, ty, nul, v, h => by unfold build at h ⊢; exact buildScalar_mono e hn lvl nul _ ty v h
@@ -372,7 +431,7 @@ theorem build_mono (e : Engine) (hn : e.nullableUnionPanic = false) (lvl : Level
         exact ⟨ys, buildList_mono e hn lvl xs ety enul _ ys hys, rfl⟩
       · next fs sr =>
         split at hr
-        · exact buildTuple_mono e hn xs fs.toList _ 0 r hr (SSt.init_cleanFrom _)
+        · exact buildTuple_mono e hn xs fs.toList _ 0 r hr (SSt.init_cleanFrom _) (SSt.init_clean _)
         · exact buildPairs_mono e hn xs fs.toList _ r hr (SSt.init_clean _)
         · cases hr
       · exact hr
@@ -383,7 +442,7 @@ theorem build_mono (e : Engine) (hn : e.nullableUnionPanic = false) (lvl : Level
       exact key ty v h
     | repr =>
       rw [build_repr_list] at h ⊢
-      rw [resolveKinded_eq e hn]
+      rw [resolveKinded_eq e hn.nup]
       split at h
       · cases h
       · cases h
@@ -415,11 +474,13 @@ theorem build_mono (e : Engine) (hn : e.nullableUnionPanic = false) (lvl : Level
       · cases hr
     cases lvl with
     | type =>
-      rw [build_type_map] at h ⊢
+      rw [build_type_map _ ideal_nodeOff] at h
+      rw [build_type_map e hn.node]
       exact key ty v h
     | repr =>
-      rw [build_repr_map] at h ⊢
-      rw [resolveKinded_eq e hn]
+      rw [build_repr_map _ ideal_nodeOff] at h
+      rw [build_repr_map e hn.node]
+      rw [resolveKinded_eq e hn.nup]
       split at h
       · cases h
       · cases h
@@ -427,24 +488,26 @@ theorem build_mono (e : Engine) (hn : e.nullableUnionPanic = false) (lvl : Level
         simp only [Outcome.map_eq_ok] at h ⊢
         obtain ⟨r, hr, hv⟩ := h
         exact ⟨r, key ty' r hr, hv⟩
-theorem buildList_mono (e : Engine) (hn : e.nullableUnionPanic = false) (lvl : Level) : (xs : DMs) →
+theorem buildList_mono (e : Engine) (hn : e.MonoFlags) (lvl : Level) : (xs : DMs) →
     (ety : Ty) → (enul : Bool) → (acc ys : List TL) →
     buildList Engine.ideal lvl ety enul acc xs = .ok ys → buildList e lvl ety enul acc xs = .ok ys
   | .nil, _, _, acc, ys, h => by unfold buildList at h ⊢; exact h
   | .cons x xs, ety, enul, acc, ys, h => by
-    unfold buildList at h ⊢
+    rw [buildList_cons_ideal] at h
+    rw [buildList_cons_off e hn.node]
     split at h
     · next v hv =>
       rw [build_mono e hn lvl x ety enul v hv]
       exact buildList_mono e hn lvl xs ety enul _ ys h
     · cases h
     · cases h
-theorem buildMap_mono (e : Engine) (hn : e.nullableUnionPanic = false) (lvl : Level) : (es : DMKVs) →
+theorem buildMap_mono (e : Engine) (hn : e.MonoFlags) (lvl : Level) : (es : DMKVs) →
     (vty : Ty) → (vnul : Bool) → (acc ys : List (Bytes × TL)) →
     buildMap Engine.ideal lvl vty vnul acc es = .ok ys → buildMap e lvl vty vnul acc es = .ok ys
   | .nil, _, _, acc, ys, h => by unfold buildMap at h ⊢; exact h
   | .cons k x es, vty, vnul, acc, ys, h => by
-    unfold buildMap at h ⊢
+    rw [buildMap_cons_ideal] at h
+    rw [buildMap_cons_nodeOff e hn.node]
     split at h
     · cases h
     · next hfresh =>
@@ -453,15 +516,17 @@ theorem buildMap_mono (e : Engine) (hn : e.nullableUnionPanic = false) (lvl : Le
       split at h
       · next v hv =>
         rw [build_mono e hn lvl x vty vnul v hv]
+        simp only [← mapAppend_fresh acc k v hfresh, ite_self]
         exact buildMap_mono e hn lvl es vty vnul _ ys h
       · cases h
       · cases h
-theorem buildStruct_mono (e : Engine) (hn : e.nullableUnionPanic = false) (lvl : Level) : (es : DMKVs) →
+theorem buildStruct_mono (e : Engine) (hn : e.MonoFlags) (lvl : Level) : (es : DMKVs) →
     (fs : List Field) → (st : SSt) → (v : TL) →
     buildStruct Engine.ideal lvl fs st es = .ok v → st.clean → buildStruct e lvl fs st es = .ok v
   | .nil, fs, st, v, h, _ => by unfold buildStruct at h ⊢; exact h
   | .cons k x es, fs, st, v, h, hcl => by
-    unfold buildStruct at h ⊢
+    rw [buildStruct_cons_ideal] at h
+    rw [buildStruct_cons_off e hn.node]
     split at h
     · cases h
     · next i f hf =>
@@ -480,12 +545,18 @@ theorem buildStruct_mono (e : Engine) (hn : e.nullableUnionPanic = false) (lvl :
           exact buildStruct_mono e hn lvl es fs _ v h (SSt.clean_assign st i tv hcl)
         · cases h
         · cases h
-theorem buildTuple_mono (e : Engine) (hn : e.nullableUnionPanic = false) : (xs : DMs) →
+theorem buildTuple_mono (e : Engine) (hn : e.MonoFlags) : (xs : DMs) →
     (fs : List Field) → (st : SSt) → (i : Nat) → (v : TL) →
-    buildTuple Engine.ideal fs st i xs = .ok v → st.cleanFrom i → buildTuple e fs st i xs = .ok v
-  | .nil, fs, st, i, v, h, _ => by unfold buildTuple at h ⊢; exact h
-  | .cons x xs, fs, st, i, v, h, hcl => by
-    unfold buildTuple at h ⊢
+    buildTuple Engine.ideal fs st i xs = .ok v → st.cleanFrom i → st.clean → buildTuple e fs st i xs = .ok v
+  | .nil, fs, st, i, v, h, _, hc => by
+    rw [buildTuple_nil_ideal] at h
+    unfold buildTuple
+    split
+    · exact SSt.finishZero_of_finish fs st v hc h
+    · exact h
+  | .cons x xs, fs, st, i, v, h, hcl, hc => by
+    rw [buildTuple_cons_ideal] at h
+    rw [buildTuple_cons_off e hn.node]
     split at h
     · cases h
     · next f hf =>
@@ -495,9 +566,10 @@ theorem buildTuple_mono (e : Engine) (hn : e.nullableUnionPanic = false) : (xs :
       · next tv htv =>
         rw [build_mono e hn .repr x f.ty f.nullable tv htv]
         exact buildTuple_mono e hn xs fs _ (i + 1) v h (SSt.cleanFrom_assign st i tv hcl)
+          (SSt.clean_assign st i tv hc)
       · cases h
       · cases h
-theorem buildPairs_mono (e : Engine) (hn : e.nullableUnionPanic = false) : (xs : DMs) →
+theorem buildPairs_mono (e : Engine) (hn : e.MonoFlags) : (xs : DMs) →
     (fs : List Field) → (st : SSt) → (v : TL) →
     buildPairs Engine.ideal fs st xs = .ok v → st.clean → buildPairs e fs st xs = .ok v
   | .nil, fs, st, v, h, _ => by unfold buildPairs at h ⊢; exact h
@@ -541,7 +613,7 @@ theorem buildPairs_mono (e : Engine) (hn : e.nullableUnionPanic = false) : (xs :
   | .cons (.list (.cons (.link _) _)) ps, _, _, _, h, _ => by simp [buildPairs] at h
   | .cons (.list (.cons (.list _) _)) ps, _, _, _, h, _ => by simp [buildPairs] at h
   | .cons (.list (.cons (.map _) _)) ps, _, _, _, h, _ => by simp [buildPairs] at h
-theorem buildUnion_mono (e : Engine) (hn : e.nullableUnionPanic = false) (lvl : Level) : (es : DMKVs) →
+theorem buildUnion_mono (e : Engine) (hn : e.MonoFlags) (lvl : Level) : (es : DMKVs) →
     (ms : List Member) → (cur : Option TL) → (n : Nat) → (v : TL) →
     buildUnion Engine.ideal lvl ms cur n es = .ok v → buildUnion e lvl ms cur n es = .ok v
   | .nil, ms, cur, n, v, h => by unfold buildUnion at h ⊢; exact h
